@@ -419,8 +419,34 @@ func (p *Prog) buildState(tn string, choose func(setter string) int, will *packe
 	}
 	st := &packetState{Type: tn, Recv: rs[0].addr}
 	var altWill *packetState
-	for _, s := range p.settersOf(nt) {
+	fns := p.settersOf(nt)
+	// a mutator to be called last, after everything else (R12.7: `SetCredentials(user, password)` or `RemoveWill()` on
+	// a packet that already has state); it need not be named Set… / Add…
+	lastMut, _ := p.cache["lastmutator"].(string)
+	if lastMut != "" {
+		var rest []*ssa.Function
+		var lf *ssa.Function
+		for _, f := range fns {
+			if f.Name() == lastMut {
+				lf = f
+			} else {
+				rest = append(rest, f)
+			}
+		}
+		if lf == nil {
+			lf = p.Method(tn, lastMut)
+		}
+		if lf == nil {
+			lastMut = "" // another type (the will message built on the way)
+		} else {
+			fns = append(rest, lf)
+		}
+	}
+	for _, s := range fns {
 		variant := choose(s.Name())
+		if lastMut != "" && s.Name() == lastMut {
+			variant = 0
+		}
 		if variant < 0 {
 			continue
 		}
@@ -1406,15 +1432,16 @@ func (p *Prog) observe(tn string, recv string, mem map[string]sv, maps map[strin
 type stateSpec struct {
 	name        string
 	choose      func(string) int
-	will        int   // 0 none, 1 will with content
-	bias        int64 // > 0: every string/binary length and every integer argument is this boundary value (clamped to the parameter's type)
-	qos         int64 // > 0: SetQoS is called with this value (3: malformed but constructible)
-	intOnly     bool  // the bias applies to integer arguments only
-	emptyList   bool  // the payload list (filters, reason codes) stays empty
-	willStretch int64 // > 0: the same for the user properties of the will message
-	stretch     int64 // > 0: the user properties added by AddUserProp occupy this many bytes more than the usual two one-byte strings
-	zeroArg     int   // > 0: setters with several parameters get the zero value for parameter number zeroArg (1-based)
-	wide        bool  // C10's wider domain: values that are constructible but outside MQTT's ranges (subscription identifier 0, a packet identifier without QoS, an empty user-property key)
+	will        int    // 0 none, 1 will with content
+	bias        int64  // > 0: every string/binary length and every integer argument is this boundary value (clamped to the parameter's type)
+	qos         int64  // > 0: SetQoS is called with this value (3: malformed but constructible)
+	intOnly     bool   // the bias applies to integer arguments only
+	emptyList   bool   // the payload list (filters, reason codes) stays empty
+	last        string // a mutator called after all chosen setters
+	willStretch int64  // > 0: the same for the user properties of the will message
+	stretch     int64  // > 0: the user properties added by AddUserProp occupy this many bytes more than the usual two one-byte strings
+	zeroArg     int    // > 0: setters with several parameters get the zero value for parameter number zeroArg (1-based)
+	wide        bool   // C10's wider domain: values that are constructible but outside MQTT's ranges (subscription identifier 0, a packet identifier without QoS, an empty user-property key)
 }
 
 // boundaryValues: the boundary lengths named by the properties' quantifiers (C01: 0, 1, 127, 128, 16 383, 16 384,
@@ -1545,6 +1572,10 @@ func (p *Prog) buildStateSpec(tn string, spec stateSpec, choose func(string) int
 	if spec.zeroArg > 0 {
 		p.cache["zeroarg"] = spec.zeroArg
 		defer delete(p.cache, "zeroarg")
+	}
+	if spec.last != "" {
+		p.cache["lastmutator"] = spec.last
+		defer delete(p.cache, "lastmutator")
 	}
 	return p.buildState(tn, choose, will)
 }
